@@ -102,6 +102,16 @@ func c06Facts(s *source, e *emitter, rel, goName, lean string, calls ...string) 
 	e.stringList(lean, "returns and property-carrying calls of `"+goName+"` in "+rel, out)
 }
 
+// c06FactsOptional is c06Facts for a function that may not exist (a helper introduced by a proposed fix):
+// an absent function yields the empty list, not an extraction error.
+func c06FactsOptional(s *source, e *emitter, rel, goName, lean string, calls ...string) {
+	if s.findFunc(rel, goName) == nil {
+		e.stringList(lean, "`"+goName+"` does not exist in "+rel, nil)
+		return
+	}
+	c06Facts(s, e, rel, goName, lean, calls...)
+}
+
 // c06IndexAssigns emits the source of every assignment whose left side is an index expression (map / slice
 // element): what is stored under which key.
 func c06IndexAssigns(s *source, e *emitter, rel, goName, lean string) {
@@ -126,6 +136,49 @@ func c06IndexAssigns(s *source, e *emitter, rel, goName, lean string) {
 	e.stringList(lean, "assignments to map / slice elements in `"+goName+"` in "+rel, out)
 }
 
+// c06Head emits the source of the statements of a function that come before the first statement starting
+// with `untilPrefix` (how the state the translated tail works on is initialised).
+func c06Head(s *source, e *emitter, rel, goName, lean, untilPrefix string) {
+	fd := s.findFunc(rel, goName)
+	if fd == nil {
+		e.errors = append(e.errors, fmt.Sprintf("function %s not found in %s", goName, rel))
+		e.stringList(lean, "MISSING: "+goName, []string{"MISSING"})
+		return
+	}
+	var out []string
+	found := false
+	for _, st := range fd.Body.List {
+		if strings.HasPrefix(s.src(st), untilPrefix) {
+			found = true
+			break
+		}
+		out = append(out, s.src(st))
+	}
+	if !found {
+		e.errors = append(e.errors, fmt.Sprintf("%s: statement %q not found", goName, untilPrefix))
+		out = []string{"MISSING"}
+	}
+	e.stringList(lean, "statements of `"+goName+"` in "+rel+" before `"+untilPrefix+"`", out)
+}
+
+// c06Assigns emits the source of every assignment in a function (function literals included).
+func c06Assigns(s *source, e *emitter, rel, goName, lean string) {
+	fd := s.findFunc(rel, goName)
+	if fd == nil {
+		e.errors = append(e.errors, fmt.Sprintf("function %s not found in %s", goName, rel))
+		e.stringList(lean, "MISSING: "+goName, []string{"MISSING"})
+		return
+	}
+	var out []string
+	ast.Inspect(fd.Body, func(n ast.Node) bool {
+		if as, ok := n.(*ast.AssignStmt); ok {
+			out = append(out, s.src(as))
+		}
+		return true
+	})
+	e.stringList(lean, "assignments in `"+goName+"` in "+rel, out)
+}
+
 func init() {
 	register("C06", func(s *source, e *emitter) {
 		const node = "core/stores/cache/cachenode.go"
@@ -140,6 +193,25 @@ func init() {
 		e.constDef(s, sqlc, "cacheSafeGapBetweenIndexAndPrimary", "safeGap")
 		c06SwitchTable(s, e, cleaner, "nextDelay", "nextDelayTable")
 		e.shapeDef(s, opt, "newOptions", "newOptionsShape")
+		// round 3: newOptions itself — the zero-initialised Options, the loop applying the given options, and the
+		// two sanity checks translated into an Int function (comparison operators, constants, which field gets
+		// which default); the two option constructors (which field an option assigns)
+		tr := &translator{registry: map[string]*transFunc{}, consts: map[string]string{}}
+		e.translated(tr, s, opt, "newOptions", "newOptionsTail", true, "if o.Expiry")
+		c06Head(s, e, opt, "newOptions", "newOptionsHead", "if o.Expiry")
+		c06Assigns(s, e, opt, "WithExpiry", "withExpiryAssigns")
+		c06Assigns(s, e, opt, "WithNotFoundExpiry", "withNotFoundExpiryAssigns")
+		// round 3: IsNotFound (the configured errNotFound decides) and the context-free wrappers of the node, the
+		// cluster and CachedConn (monc uses Get / Set; each must hand the same key / value / expiry / query on)
+		c06Facts(s, e, node, "cacheNode.IsNotFound", "isNotFoundFacts", "Is")
+		c06Facts(s, e, "core/stores/cache/cache.go", "cacheCluster.IsNotFound", "clusterIsNotFoundFacts", "Is")
+		for _, w := range []string{"Del", "Get", "Set", "SetWithExpire", "Take", "TakeWithExpire"} {
+			c06Facts(s, e, node, "cacheNode."+w, "nodeW"+w+"Facts", w+"Ctx")
+			c06Facts(s, e, "core/stores/cache/cache.go", "cacheCluster."+w, "clusterW"+w+"Facts", w+"Ctx")
+		}
+		for _, w := range []string{"DelCache", "GetCache", "Exec", "QueryRow", "QueryRowIndex", "SetCache", "SetCacheWithExpire"} {
+			c06Facts(s, e, sqlc, "CachedConn."+w, "sqlcW"+w+"Facts", w+"Ctx")
+		}
 		e.shapeDef(s, node, "cacheNode.doGetCache", "doGetCacheShape")
 		e.shapeDef(s, node, "cacheNode.doTake", "doTakeShape")
 		e.shapeDef(s, node, "cacheNode.processCache", "processCacheShape")
@@ -156,8 +228,14 @@ func init() {
 		c06Facts(s, e, node, "cacheNode.doGetCache", "doGetCacheFacts", "GetCtx", "processCache")
 		c06Facts(s, e, node, "cacheNode.doTake", "doTakeFacts", "DoEx", "doGetCache", "query", "setCacheWithNotFound", "cacheVal")
 		c06Facts(s, e, node, "cacheNode.processCache", "processCacheFacts", "DelCtx")
-		c06Facts(s, e, node, "cacheNode.setCacheWithNotFound", "setCacheWithNotFoundFacts", "aroundDuration", "Ceil", "SetnxExCtx")
-		c06Facts(s, e, node, "cacheNode.SetWithExpireCtx", "setWithExpireFacts", "aroundDuration", "Ceil", "SetexCtx")
+		c06Facts(s, e, node, "cacheNode.setCacheWithNotFound", "setCacheWithNotFoundFacts", "aroundDuration", "Ceil", "SetnxExCtx", "ttlSeconds")
+		c06Facts(s, e, node, "cacheNode.SetWithExpireCtx", "setWithExpireFacts", "aroundDuration", "Ceil", "SetexCtx", "ttlSeconds")
+		c06FactsOptional(s, e, node, "ttlSeconds", "ttlSecondsFacts", "Ceil")
+		if fd := s.findFunc(node, "ttlSeconds"); fd != nil {
+			e.stringList("ttlSecondsShape", "statement skeleton of `ttlSeconds` in "+node, s.shape(fd))
+		} else {
+			e.stringList("ttlSecondsShape", "`ttlSeconds` does not exist in "+node, nil)
+		}
 		c06Facts(s, e, node, "cacheNode.SetCtx", "setFacts", "aroundDuration", "SetWithExpireCtx")
 		c06Facts(s, e, node, "cacheNode.TakeCtx", "takeFacts", "doTake", "SetCtx")
 		c06Facts(s, e, node, "cacheNode.TakeWithExpireCtx", "takeWithExpireFacts", "aroundDuration", "doTake", "query", "SetWithExpireCtx")
